@@ -560,6 +560,8 @@ def _check_ub(ob: _Ob, comp: Computer, w: Write, is_sam: bool) -> None:
         parts = [v]
         if v[0] == "MIN2":
             parts = [v[1], v[2]]
+        elif v[0] == "SUB" and isinstance(v[1], tuple) and v[1][0] in ("LB", "UB", "VAL", "KV", "KNV") and isinstance(v[1][1], Coll) and v[1][1].restricted:
+            parts = [("MIN", v)]        # v(T0) - LB(T0\\c) for ONE chosen superset T0: a reduction over a single candidate
         elif v[0] == "?":
             ob.und("B7s", {"C01", "C02", "C04", "C07"}, where, fn, f"UB value not understood: {show_num(v)}")
             continue
